@@ -379,7 +379,7 @@ func TestVerifC06Real(t *testing.T) {
 		addrs = append(addrs, name)
 	}
 	var pushes []c06Push
-	periodic := os.Getenv("VERIF_C06_PERIODIC") != ""        // pushes at slot%500==0 (partial flush of small lists)
+	periodic := os.Getenv("VERIF_C06_PERIODIC") != ""  // pushes at slot%500==0 (partial flush of small lists)
 	withBulk := os.Getenv("VERIF_C06_PERIODIC") == "1" // plus > 100 000 distinct addresses (real threshold)
 	id := 0
 	add := func(names []string, slot uint64) {
